@@ -283,17 +283,34 @@ def sub_order(case, seed, e):
 class C14(PropertyCheck):
     pid = "C14"
     rule = ("streams: sampler (BucketBatchSampler driven directly; exhaustive over n<=4 indices x 3 buckets x "
-            "sizes 1..3 x drop, random larger, malformed maps), params (_get_bucket_batch_sampler_params on "
-            "length lists with ties), window (extract_window exhaustive T<=4, left/right<=3), lang/spect/cw "
-            "(collate functions, every flag), loader (data sets of 0..10 utterances in a temp dir, all loader "
-            "classes, several epochs, num_workers=0, optional simulated world size). non-trivial: >= 2 buckets "
-            "in use or an incomplete batch (sampler/loader), a padded row (collate), an edge-padded window; "
-            "distinct by the case dict")
+            "sizes 1..3 x drop, random larger with int / negative / string / tuple bucket ids, drop_incomplete "
+            "omitted, a plain list as sampler, malformed maps; every run = len, two full passes, a pass "
+            "abandoned after its first batch with len() in the middle, a further full pass), params "
+            "(_get_bucket_batch_sampler_params on length lists with ties, over every element layout of the "
+            "data sets), window (extract_window exhaustive T<=4, left/right<=3 + other widths, contexts up to "
+            "9, strided / transposed / float64 / int64 inputs, input unchanged), lang/spect/cw (collate "
+            "functions, every flag, all arguments defaulted, list/tuple input, float64 / int32 members, "
+            "inputs unchanged, output dtypes, tuple arity), loader (data sets of 0..10 utterances incl. a "
+            "zero-length one in a temp dir with default / prefixed / re-suffixed / renamed / ali-less / "
+            "ref-less layouts and distractor files, all seven loader classes, path or data-set object, merged / "
+            "split / legacy parameter objects, deprecated keyword routes, subset_ids, sos/eos, mvn and deltas, "
+            "options passed or left to the class defaults incl. an undrawn seed under torch.manual_seed, "
+            "every on_uneven_distributed mode under simulated world sizes 2 and 3, rejected keywords, "
+            "pin_memory, 1-2 worker processes; operations: k epochs, jump of loader.epoch, abandoned "
+            "iteration, rewind, fresh loader at the last epoch). non-trivial: >= 2 buckets in use or an "
+            "incomplete batch (sampler/loader), a padded row (collate), an edge-padded window; distinct by "
+            "the case dict")
     assumptions = [
         "torch.distributed simulated by patching is_available/is_initialized/get_rank/get_world_size",
-        "epoch orderings taken from an independent EpochRandomSampler/EpochSequentialSampler object (C13)",
-        "torch.nn.utils.rnn.pad_sequence, torch.cat, torch.flip, torch.utils.data.BatchSampler at their documented meaning",
-        "integer-valued features so float32 is exact; num_workers=0 (worker processes not modelled)",
+        "epoch orderings: numpy RandomState((seed, epoch)).permutation(N) computed by the harness (range(N) "
+        "without shuffling), sliced per rank by C13's Lean model; cross-checked against a library sampler object",
+        "torch.nn.utils.rnn.pad_sequence, torch.cat, torch.flip, torch.utils.data.BatchSampler / DataLoader at "
+        "their documented meaning",
+        "integer-valued features so float32 is exact; with mvn / deltas the data set's own item is the "
+        "'original tensor' (the transform itself is C18's subject)",
+        "worker processes (fork) only in a small slice; everything else num_workers=0",
+        "defaults of the deprecated Training/Evaluation loader classes taken from their signatures "
+        "(CLS_DEFAULTS in harness/c14.py)",
         "size_batch_by_length with a zero-length bucket bound: ZeroDivisionError is a listed known finding",
     ]
     exhaustive = {"quick": False, "thorough": False}
@@ -346,6 +363,8 @@ class C14(PropertyCheck):
                 case["idkind"] = kind       # bucket ids are any sortable hashables
             if not case["drop"] and rng.random() < 0.2:
                 case["drop_omitted"] = True
+            if rng.random() < 0.12:
+                case["sampler"] = "plain"   # any collection of indices; len() then is not defined
             r = rng.random()
             if r < 0.06 and i2b:
                 case["i2b"] = i2b[:-1]
@@ -533,6 +552,18 @@ class C14(PropertyCheck):
             case["sos"] = 7
         if rng.random() < 0.2:
             case["eos"] = 8
+        # ---- deprecated keyword routes instead of the parameter objects (path entry only)
+        if case.get("data_as") != "dataset":
+            via = []
+            if cw and rng.random() < 0.2:
+                via.append("context")
+            if cls.startswith("spect") and ("sos" in case or "eos" in case) and rng.random() < 0.3:
+                via.append("sos_eos")
+            if cls != "lang" and case.get("subset") and not case.get("subset_via_loader_params") \
+                    and rng.random() < 0.3:
+                via.append("subset")
+            if via:
+                case["via_kwargs"] = via
         if cls != "lang" and 0 not in lens:     # (a transform of an empty utterance is C18's subject)
             if rng.random() < 0.12:
                 case["mvn"] = True
@@ -579,10 +610,14 @@ class C14(PropertyCheck):
         kind = case.get("idkind", "int")
         i2b = {i: self.raw_bucket(kind, b) for i, b in case["i2b"]}
         b2s = {self.raw_bucket(kind, b): n for b, n in case["b2s"]}
-        args = (ListSampler(case["order"]), i2b, b2s) + (() if case.get("drop_omitted") else (case["drop"],))
+        plain = case.get("sampler") == "plain"
+        args = (list(case["order"]) if plain else ListSampler(case["order"]), i2b, b2s) + (
+            () if case.get("drop_omitted") else (case["drop"],))
         bs = BucketBatchSampler(*args)
 
         def length():
+            if plain:
+                return "undefined"
             try:
                 return int(_get_batch_sampler_len(bs))
             except Exception as e:
@@ -797,10 +832,11 @@ class C14(PropertyCheck):
         from pydrobert.torch import data
         cls = case["cls"]
         dkw = {}
-        if case.get("subset"):
+        via = case.get("via_kwargs", ())
+        if case.get("subset") and "subset" not in via:
             dkw["subset_ids"] = [utt_id(i) for i in case["subset"]]
         for k in ("sos", "eos"):
-            if o[k] is not None:
+            if o[k] is not None and "sos_eos" not in via:
                 dkw[k] = o[k]
         if cls != "lang":
             if case.get("mvn"):
@@ -809,7 +845,8 @@ class C14(PropertyCheck):
                 dkw["delta_order"] = int(case["delta"])
         lkw = {"batch_size": case["B"], "drop_last": case["drop"]}
         if o["cw"]:
-            dkw.update(context_left=case["left"], context_right=case["right"], reverse=case["reverse"])
+            if "context" not in via:
+                dkw.update(context_left=case["left"], context_right=case["right"], reverse=case["reverse"])
             merged, lonly, donly = (data.ContextWindowDataLoaderParams, data.DataLoaderParams,
                                     data.ContextWindowDataParams)
         else:
@@ -851,6 +888,14 @@ class C14(PropertyCheck):
                 kw["ref_subdir"] = rd
         if case.get("mvn") and cls != "lang":
             kw.update(feat_mean=torch.tensor(MVN_MEAN), feat_std=torch.tensor(MVN_STD))
+        if not for_dataset:
+            via = case.get("via_kwargs", ())
+            if "context" in via:
+                kw.update(left=case["left"], right=case["right"], reverse=case["reverse"])
+            if "sos_eos" in via:
+                kw.update({k: o[k] for k in ("sos", "eos") if o[k] is not None})
+            if "subset" in via:
+                kw["subset_ids"] = {utt_id(i) for i in case["subset"]}
         flags = ["suppress_uttids"] + ([] if o["cw"] else ["tokens_only"]) + (
             ["suppress_alis"] if cls.startswith("spect") else [])
         for k in flags:
@@ -1193,7 +1238,7 @@ class C14(PropertyCheck):
             if ib != mb:
                 out.append(f"batches: impl={impl['batches']} model={model['batches']}")
             for f in ("err", "len"):
-                if impl[f] != model[f]:
+                if impl[f] != model[f] and not (f == "len" and impl[f] == "undefined"):
                     out.append(f"{f}: impl={impl[f]} model={model[f]}")
         elif k == "params":
             if "err" in impl or "err" in model:
@@ -1251,7 +1296,7 @@ class C14(PropertyCheck):
         """The shuffling seed in force: the case's, or - for a loader built without `seed` - the
         `base_seed` attribute its sampler reports (drawn from torch's generator after manual_seed)."""
         if "seed" in omitted(case):
-            return self._seeds.get(self.key(case), 0)
+            return max(self._seeds.get(self.key(case), 0), 0)
         return case["seed"]
 
     def compare_loader(self, case, impl, model):
@@ -1353,7 +1398,7 @@ class C14(PropertyCheck):
         if impl["err"] is not None:
             return [(f"iteration raised {impl['err']} on well-formed maps", "C14.sampler.raises")]
         fails += self.check_batches(impl["batches"], case["order"], lambda x: i2b[x], model["spec"], case["drop"])
-        if impl["len"] != len(impl["batches"]):
+        if impl["len"] != len(impl["batches"]) and impl["len"] != "undefined":
             fails.append((f"_get_batch_sampler_len = {impl['len']} but {len(impl['batches'])} batches yielded",
                           "C14.len"))
         if not impl["repeatable"]:
@@ -1722,6 +1767,8 @@ class C14(PropertyCheck):
             t.append(f"bucket_ids={case.get('idkind', 'int')}")
             if case.get("drop_omitted"):
                 t.append("drop=omitted")
+            if case.get("sampler") == "plain":
+                t.append("sampler=plain_list")
         elif k == "window":
             t.append(f"window.layout={case.get('layout', 'contig')}")
         elif k == "params":
@@ -1743,6 +1790,7 @@ class C14(PropertyCheck):
             if case.get("world"):
                 t.append(f"uneven={o['uneven']}")
             t += [f"omitted={k}" for k in sorted(om)]
+            t += [f"by_keyword={k}" for k in case.get("via_kwargs", ())]
             for k in ("subset", "sos", "eos", "mvn", "delta", "prefix", "suffix", "subdirs", "pin_memory",
                       "abandon", "bad_kwarg", "subset_via_loader_params"):
                 if case.get(k):
@@ -1801,7 +1849,7 @@ class C14(PropertyCheck):
                 yield c
             for f in ("omit", "data_as", "split_params", "legacy_params", "subset", "sos", "eos", "mvn",
                       "delta", "pin_memory", "prefix", "suffix", "subdirs", "with_ali", "with_ref", "jump",
-                      "abandon", "num_workers", "subset_via_loader_params"):
+                      "abandon", "num_workers", "subset_via_loader_params", "via_kwargs"):
                 if f in case:
                     c = dict(case)
                     del c[f]
